@@ -406,7 +406,7 @@ def lazy_rendering(chk, F, rule, cfg):
 # selector: match_call_pattern (R01.1 R01.2 R04.2 R04.3 R04.5)
 # ------------------------------------------------------------------------------------------
 
-FIRST_HIT_OK = re.compile(r'(::Deref>?::deref$|::iter$|IntoIterator>?::into_iter$|Iterator>?::enumerate$|Iterator>?::filter_map$|Iterator>?::filter$|Iterator>?::map$|'
+FIRST_HIT_OK = re.compile(r'(::Deref>?::deref$|::iter$|IntoIterator( for [^>]*)?>?::into_iter$|Iterator>?::enumerate$|Iterator>?::filter_map$|Iterator>?::filter$|Iterator>?::map$|'
                           r'Iterator>?::inspect$|Iterator>?::by_ref$|Iterator>?::peekable$|Iterator>?::next$|Iterator>?::find$|Iterator>?::find_map$|Iterator>?::position$|'
                           r'Option::transpose$|Result::map_err$|Option::map$|Result::map$|Option::ok_or\w*$|::as_slice$|Option::copied$|Option::cloned$)')
 
@@ -584,13 +584,13 @@ def index_is_position(chk, F, rule, cfg):
         n += 1
         i = max(k for k, x in enumerate(names) if re.search(r'Iterator>?::enumerate$', x))
         below = names[i + 1:]
-        ok = all(re.search(r'(::Deref>?::deref$|::iter$|IntoIterator>?::into_iter$|::as_slice$)', x) for x in below)
+        ok = all(re.search(r'(::Deref>?::deref$|::iter$|IntoIterator( for [^>]*)?>?::into_iter$|::as_slice$)', x) for x in below)
         chk.ob(rule, 'the index paired with a selected pattern is its position in the list (enumerate sits directly on the list iterator)', ok, config=cfg, fn=fn, site='index-position',
                what='adaptors below enumerate: %s' % [x.rsplit('::', 1)[-1] for x in below], found=[x.rsplit('::', 1)[-1] for x in names])
     return n
 
 
-LOOP_SRC_OK = re.compile(r'(::Deref>?::deref$|::iter$|IntoIterator>?::into_iter$|Iterator::enumerate$|::as_slice$|Iterator::by_ref$|Iterator>?::next$)')
+LOOP_SRC_OK = re.compile(r'(::Deref>?::deref$|::iter$|IntoIterator( for [^>]*)?>?::into_iter$|Iterator::enumerate$|::as_slice$|Iterator::by_ref$|Iterator>?::next$)')
 
 
 def loop_scan(chk, F, r_scan, r_pure, cfg, fn, any_paths, root_pred):
